@@ -70,12 +70,18 @@ def observe_init(raw):
     except Exception as e:
         return ('raise', type(e).__name__, isinstance(e, AISBaseException))
     d = {}
-    for k in TEXT_FIELDS:
-        v = getattr(tb, k)
-        d[k] = None if v is None else v.encode()
-    g = tb.group
-    d['group'] = None if g is None else (g.sentence_num, g.sentence_tot, g.group_id)
-    d['actual'], d['expected'], d['valid'] = tb.actual_checksum, tb.expected_checksum, tb.is_valid
+    k = '?'
+    try:                  # after a successful init() every accessor returns; one that raises is an observation, not a crash
+        for k in TEXT_FIELDS:
+            v = getattr(tb, k)
+            d[k] = None if v is None else v.encode()
+        k = 'group'
+        g = tb.group
+        d['group'] = None if g is None else (g.sentence_num, g.sentence_tot, g.group_id)
+        k = 'checksum accessors'
+        d['actual'], d['expected'], d['valid'] = tb.actual_checksum, tb.expected_checksum, tb.is_valid
+    except Exception as e:      # noqa: BLE001
+        return ('raise', f'{type(e).__name__} (from the accessor `{k}` after init() succeeded)', isinstance(e, AISBaseException))
     return ('ok', d)
 
 
